@@ -10,7 +10,7 @@ C15 op lines (shared with `dv-schema`):
   ver i=<k> v=<version> [pri=…]            -> "ok|err:<Class> <table>"        DataModel::update
   start i=<k> v=<version> [pri=…]          -> "ok <live table>" | "err:<Class>"   (re)start of instance k
   upd i=<k> v=<version> [pri=…]            -> "ok|err:<Class> <live table>" | "not-running"
-  updpub i=<k> v=<version> [pri=…]         -> "done <live table>" | "not-running"  (public API: error swallowed)
+  updpub i=<k> v=<version> [pri=…]         -> same as upd, through the public `update_data_model`
   put i=<k> e=<ns>:<Entity> r=<n> vals=f:i:5;g:s:abc   -> "ok" | "err:<class>"
   get i=<k> e=<ns>:<Entity> f=f1,f2        -> "rows r1:f1=5,f2=null;r2:…" | "err:<class>"
 `pri=` is the visit-order hint observed by the harness: N:<ns> , E:<ns>:<entity> , F:<ns>:<entity>:<field>.
@@ -265,7 +265,7 @@ def stepLine (d : Defects) (s : St) (line : String) : St × String :=
           | _, _ => resStr r)
       | none => (s, "bad-op")
     | _, _, _ => (s, "bad-op")
-  | "upd" :: rest =>
+  | "upd" :: rest | "updpub" :: rest =>
     match nat? rest "i", (kvs? rest "v").bind parseVersion, parsePri rest with
     | some i, some v, some pri =>
       match s.insts[i]? with
@@ -275,18 +275,6 @@ def stepLine (d : Defects) (s : St) (line : String) : St × String :=
         | some _ =>
           let (x', r) := x.updateLive d pri Gen.sysVersion v
           ({ s with insts := setAt s.insts i x' }, resStr r ++ " " ++ tableStr (x'.live.getD Model.empty))
-      | none => (s, "bad-op")
-    | _, _, _ => (s, "bad-op")
-  | "updpub" :: rest =>
-    match nat? rest "i", (kvs? rest "v").bind parseVersion, parsePri rest with
-    | some i, some v, some pri =>
-      match s.insts[i]? with
-      | some x =>
-        match x.live with
-        | none => (s, "not-running")
-        | some _ =>
-          let (x', _) := x.updateLive d pri Gen.sysVersion v
-          ({ s with insts := setAt s.insts i x' }, "done " ++ tableStr (x'.live.getD Model.empty))
       | none => (s, "bad-op")
     | _, _, _ => (s, "bad-op")
   | "put" :: rest =>
@@ -316,6 +304,7 @@ end SchemaDriver
 def main : IO Unit := do
   let d := match (← IO.getEnv "DV_DEFECTS") with
     | some "none" => Defects.none
+    | some "beforeFixes" => Defects.beforeFixes
     | some "hashOrderIds" => { hashOrderIds := true, partialRefusal := false }
     | some "partialRefusal" => { hashOrderIds := false, partialRefusal := true }
     | _ => Defects.asImplemented
